@@ -1,4 +1,85 @@
 import TsRsVerif.Model.Deps
+/-!
+# C07 — declarations of generic types are parametric and well-scoped
+
+Theorems over the string-level model of the generated impl (`Model/Derive.lean`, `Model/Deps.lean`).
+As DESIGN.md §9 says, parametricity is close to definitional in the model (the model's `declS`
+does not take the type arguments, exactly because the generated `decl()` replaces them by
+placeholder types first); what carries the claim is the relational tie of `tools/props/c07.py`,
+which compares the real `decl()` of ≥3 instantiations of every generic item.
+-/
 namespace TsRs
-theorem C07_placeholder : True := trivial
+open Text Derive
+
+/-- the declaration a type expression's `decl()` prints: only the ITEM matters, not the arguments -/
+def declOf (cfg : Cfg) (env : Env) (fuel : Nat) : RTy → Res Str
+  | .named id _ => match env.find id with
+    | some it => declS cfg env fuel it
+    | none => .panic "unknown type"
+  | _ => .panic "cannot be declared"
+
+/-- **parametric**: `decl()` is the same text for every choice of type arguments -/
+theorem C07_parametric (cfg : Cfg) (env : Env) (fuel : Nat) (id : Str) (args₁ args₂ : List RTy) :
+    declOf cfg env fuel (.named id args₁) = declOf cfg env fuel (.named id args₂) := rfl
+
+/-- **binders and shape of the declaration**: `type <name><binders> = <body at the placeholders>;`
+where the binders are exactly the non-concretised type parameters, in order, each with its default
+(`declBinders`), and the body is evaluated with every such parameter bound to ITSELF (`declSubst`),
+so it can mention no other parameter name -/
+theorem C07_decl_shape (cfg : Cfg) (env : Env) (fuel : Nat) (it : Item) (d : TDef) (ps : List Str)
+    (hd : itemDef cfg env fuel it (declSubst it) = .ok d) (hps : declBinders env it = .ok ps) :
+    declS cfg env fuel it = .ok ("type ".toList ++ tsName it ++
+      (if ps = [] then [] else "<".toList ++ intercalate ", ".toList ps ++ ">".toList) ++ " = ".toList ++ d.1 ++ ";".toList) := by
+  simp [declS, hd, hps, bind, Res.bind, pure]
+
+/-- the binder list has one entry per non-concretised type parameter, in order -/
+theorem C07_binders_length (env : Env) (it : Item) (ps : List Str) (h : declBinders env it = .ok ps) :
+    ps.length = (it.generics.filter fun g => (it.attr.concrete.find? (·.1 = g.name)).isNone).length := by
+  unfold declBinders at h
+  generalize (it.generics.filter fun g => (it.attr.concrete.find? (·.1 = g.name)).isNone) = gs at h
+  induction gs generalizing ps with
+  | nil => simp [bindersOf] at h; subst h; rfl
+  | cons g gs ih =>
+    simp only [bindersOf] at h
+    split at h
+    · rename_i x xs _ hxs
+      simp only [Res.ok.injEq] at h
+      subst h
+      simp [ih xs hxs]
+    · simp at h
+    · simp at h
+
+/-- **a reference to an instantiation is the identifier applied to the names of the
+non-concretised arguments** -/
+theorem C07_name (env : Env) (id : Str) (args : List RTy) (it : Item) (all : List Str)
+    (hit : env.find id = some it) (hall : nameSL env args = .ok all) :
+    nameS env (.named id args) = .ok (
+      let xs := (it.generics.zip all).filterMap fun (g, x) =>
+        if (it.attr.concrete.find? (·.1 = g.name)).isSome then none else some x
+      if xs = [] then tsName it else tsName it ++ "<".toList ++ intercalate ", ".toList xs ++ ">".toList) := by
+  simp only [nameS, hit, hall, bind, Res.bind, pure]
+
+/-- **`decl_concrete()` is the declaration body instantiated at the arguments** (it is `inline()`) -/
+theorem C07_concrete_is_inline (cfg : Cfg) (env : Env) (fuel : Nat) (id : Str) (args : List RTy) (it : Item) (s : Str)
+    (hit : env.find id = some it) (hin : inlineS cfg env (fuel + 1) (.named id args) = .ok s) :
+    declConcreteS cfg env fuel it args = .ok ("type ".toList ++ tsName it ++ " = ".toList ++ s ++ ";".toList) := by
+  simp only [inlineS, hit, bind, Res.bind] at hin
+  unfold declConcreteS
+  cases hd : itemDef cfg env fuel it (bindArgs it args) with
+  | panic w => simp [hd] at hin
+  | ok d =>
+    simp only [hd, pure, Res.ok.injEq] at hin
+    simp [bind, Res.bind, pure, hin]
+
+/-! ## non-vacuity: a generic struct with a default and a concretised parameter -/
+def exLeaf : Item := { isEnum := false, name := "Leaf".toList, fields := [{ name := some "v".toList, ty := .prim "u8" }] }
+def exG : Item :=
+  { isEnum := false, name := "G".toList,
+    generics := [{ name := "A".toList }, { name := "B".toList, default := some (.named "Leaf".toList []) }, { name := "C".toList }],
+    attr := { concrete := [("C".toList, .prim "i32")] },
+    fields := [{ name := some "a".toList, ty := .vec (.param "A".toList) }, { name := some "b".toList, ty := .param "B".toList },
+               { name := some "c".toList, ty := .param "C".toList }] }
+example : declS { ops := Case.asciiOps } [exLeaf, exG] 20 exG
+    = .ok "type G<A, B = Leaf> = { a: Array<A>, b: B, c: number, };".toList := by decide +kernel
+
 end TsRs
